@@ -368,3 +368,6 @@ def run_case(case):
           "state_keys": ["%r|%d" % (case["layers"], i) for i in range(states + 1)],
           "digest": common.digest(digests), "violations": viol, "traces": states,
           "sample": {"layers": case["layers"], "exports": states}}
+
+# (appended: sub-lattices added after the seeded waves; kept out of the original RULE text for readability)
+RULE = RULE + '; kernel quantizer kinds include 3-bit auto_po2 on bell-shaped weights and po2 with a max_value that is not a power of two; layer kinds include a grouped convolution and QBidirectional with an explicit backward layer'
